@@ -356,6 +356,36 @@ UNITS += [
 """),
 ]
 
+UNITS += [
+    # the walk of check_trees over ALL trees: a tree that cannot be loaded fails the check (it is never skipped silently)
+    Unit(name="check_trees_walk", file=CK, kind="block", within="fn check_trees<S: Open>(",
+         anchor="let mut packs = BTreeSet::new();", block_end="@fn_end",
+         block_sig="fn check_trees_walk(repo: &VRepoT, be: &VBeT, index: &VIndex, snap_trees: TreeIdsW, collector: &CheckResultsCollector) -> (r: RusticResult<VSet<PackId>>)",
+         block_tail="",
+         functions=["commands::check::check_trees (the walk over the tree stream; the per-tree node loop is unit check_tree_nodes)"],
+         rewrites=[
+             Rw("BTreeSet::new()", "vset_new()", why="BTreeSet -> set stub"),
+             Rw("TreeStreamerOnce::new(be, index, snap_trees, p)?", "VTreeStream::vnew(be, index, snap_trees, p)?", why="TreeStreamerOnce (threads) -> the sequence of its items"),
+             Rw(".next().transpose()", ".vnext_t()", why="(placeholder, replaced below)", optional=True),
+             Rw("tree_streamer.vnext_t()", "vtranspose(tree_streamer.next())", why="Option<Result>::transpose -> proved helper (definition)", optional=True),
+             Rw(r"(?s)for node in tree\.nodes \{.*?\n        \}\n(?=    \})", "vcheck_tree_nodes(tree, path, index, &mut packs, collector);\n", regex=True,
+                why="ELIDED here: the per-tree loop over the nodes (it is the unit check_tree_nodes)"),
+         ],
+         contract="""
+    ensures
+        // "a full check reports no error only if everything is readable": one unreadable tree makes the walk fail
+        /*@an_unreadable_tree_fails_the_tree_check*/ r is Ok ==> forall|i: int| 0 <= i < TREE_ITEMS_OK(snap_trees).len() ==> #[trigger] TREE_ITEMS_OK(snap_trees)[i],
+""",
+         loops={1: """
+        invariant
+            tree_streamer.oks@ == TREE_ITEMS_OK(snap_trees), 0 <= tree_streamer.pos@ <= tree_streamer.oks@.len(),
+            forall|i: int| 0 <= i < tree_streamer.pos@ ==> #[trigger] tree_streamer.oks@[i],
+        ensures tree_streamer.pos@ >= tree_streamer.oks@.len(),
+        decreases tree_streamer.oks@.len() - tree_streamer.pos@,
+"""},
+         ),
+]
+
 KANI = []
 # check reads the repository through the in-memory index: the index units of C17's spec (lookup succeeds iff listed)
 SATELLITES = [("C17", "*")]
